@@ -403,7 +403,7 @@ def coqable(v):
     if isinstance(v, str):
         return all(32 <= ord(c) < 127 for c in v)
     if isinstance(v, list):
-        return all(coqable(x) for x in v)
+        return all(isinstance(x, str) and coqable(x) for x in v)
     return True
 
 
@@ -618,6 +618,22 @@ def uses_udf(inst):
     return inst.kind in ("metric", "distance_function") or (inst.kind == "compose" and "lev" in json.dumps(inst.meta.get("shape")))
 
 
+def near_boundary_value(inst: T.CompInst, row):
+    """float noise guard for whole comparisons: a Jaro / Jaro-Winkler value within 1e-9 of a library threshold"""
+    ths = [Fraction(x) for x in ("0.92", "0.88", "0.7", "0.9", "0.95", "0.8", "0.5", "0.6")]
+    for c, kind in inst.cols.items():
+        if kind in ("str", "email"):
+            a, b = row[c]
+            if isinstance(a, str) and isinstance(b, str) and a and b:
+                for f in (O.jaro, O.jaro_winkler):
+                    v = Fraction(f(a, b))
+                    if any((v == t and v.denominator & (v.denominator - 1) != 0) or (v != t and abs(v - t) < Fraction(1, 10 ** 9)) for t in ths):
+                        return True
+            if isinstance(a, str) and isinstance(b, str) and (a == "" and b == ""):
+                return True      # Jaro convention on two empty strings differs between engines
+    return False
+
+
 def report_level(ctx, inst, d, tname, row, sql, got, doc, note):
     feats = {"dialect": d, "level": inst.family}
     if inst.kind == "pctdiff" and tname == "int":
@@ -639,7 +655,39 @@ def report_level(ctx, inst, d, tname, row, sql, got, doc, note):
 # ------------------------------------------------------------------------------------------
 # X2: whole comparisons - CASE assignment
 # ------------------------------------------------------------------------------------------
-COL_TABLE = {"str": "str", "arr": "arr", "emb": "emb", "date": "date", "tsstr": "tsstr", "ts": "ts"}
+COL_TABLE = {"str": "str", "arr": "arr", "emb": "emb", "date": "date", "tsstr": "tsstr", "ts": "ts", "date_dmy": "date_dmy"}
+PCS = ["AB1 2CD", "AB1 2CE", "AB1 3CD", "AB12 9ZZ", "AC1 2CD", "B1 1AA", "b1 1aa", "zz", "", None, "AB1 2CD", "UNKNOWN", "SW1A1AA", "SW1A 1AA",
+       "AB1 2C", "1AB 2CD", "AB1  2CD"]
+EMAILS = ["john@a.com", "john@b.com", "jon@a.com", "john.smith@a.com", "john.smyth@a.com", "mary@a.com", "nodomain", "", None, "john@a.com", "@a.com"]
+
+
+def comp_oracle_rows(inst: T.CompInst, row, d):
+    """per-row table for the named functions of the DOCUMENTED level terms that have no executable meaning in Coq:
+    regexp_extract (python `re`), date parsing + epoch (python strptime).  Independent of the implementation."""
+    out = []
+    for cs in inst.meta.get("ocols", []):
+        for v in row[cs.name]:
+            if not isinstance(v, str):
+                continue
+            for op in cs.ops:
+                if op[0] == "regex":
+                    import re
+                    m = re.search(op[1], v)
+                    out.append(("regexp_extract", [T.v_str(v), T.v_str(op[1]), T.v_int(op[2])], T.v_str(m.group(0) if m else "")))
+                elif op[0] in ("date", "ts"):
+                    pyfmt = op[1] or ("%Y-%m-%d" if op[0] == "date" else "%Y-%m-%dT%H:%M:%SZ")
+                    dfmt = op[1] or T.FN[d]["date_fmt" if op[0] == "date" else "ts_fmt"]
+                    e = O.parse_epoch(v, pyfmt)
+                    parsed = T.v_null() if e is None else T.v_str("ts:" + v)
+                    out.append((T.FN[d]["parse_date" if op[0] == "date" else "parse_ts"], [T.v_str(v), T.v_str(dfmt)], parsed))
+                    if e is not None:
+                        out.append((T.FN[d]["epoch"], [parsed], T.v_int(e)))
+    for c, kind in inst.cols.items():
+        if kind == "ts":
+            for v in row[c]:
+                if v is not None:
+                    out.append((T.FN[d]["epoch"], [pyval(v)], T.v_int(O.native_epoch(v))))
+    return out
 
 
 def comp_rows(ctx, inst: T.CompInst, tabs):
@@ -654,12 +702,11 @@ def comp_rows(ctx, inst: T.CompInst, tabs):
             src[c] = [r[c] for r in tabs["coord"][1]]
         elif kind == "postcode":
             types[c] = "VARCHAR"
-            pcs = ["AB1 2CD", "AB1 2CE", "AB1 3CD", "AB12 9ZZ", "AC1 2CD", "B1 1AA", "b1 1aa", "zz", "", None, "AB1 2CD"]
-            src[c] = [(rng.choice(pcs), rng.choice(pcs)) for _ in range(n)]
+            src[c] = [(rng.choice(PCS), rng.choice(PCS)) for _ in range(n)] + [("UNKNOWN", "AB1 2CD"), ("AB1 2CD", "SW1A1AA"), ("UNKNOWN", "UNKNOWN"),
+                                                                              ("SW1A1AA", "SW1A1AA"), ("zz", "zz"), (None, "AB1 2CD"), ("AB1 2CD", "AB1 2CE")]
         elif kind == "email":
             types[c] = "VARCHAR"
-            es = ["john@a.com", "john@b.com", "jon@a.com", "john.smith@a.com", "john.smyth@a.com", "mary@a.com", "nodomain", "", None, "john@a.com"]
-            src[c] = [(rng.choice(es), rng.choice(es)) for _ in range(n)]
+            src[c] = [(rng.choice(EMAILS), rng.choice(EMAILS)) for _ in range(n)]
         else:
             tn = COL_TABLE[kind]
             col0 = next(iter(tabs[tn][0]))
@@ -669,7 +716,8 @@ def comp_rows(ctx, inst: T.CompInst, tabs):
         k = len(src["lat"])
         for i in range(min(n, k)):
             j = rng.randrange(k)
-            row = {c: (src[c][j] if inst.cols[c] in ("lat", "lng") else rng.choice(src[c])) for c in inst.cols}
+            row = {c: (src[c][j] if inst.cols[c] in ("lat", "lng") else (src[c][-1 - i] if i < 7 and inst.cols[c] == "postcode" else rng.choice(src[c])))
+                   for c in inst.cols}
             rows.append(row)
     else:
         for i in range(n):
@@ -682,6 +730,7 @@ def comp_rows(ctx, inst: T.CompInst, tabs):
 
 def comparison_stage(ctx: Ctx, comps, tabs, dialects, structures):
     cases, metas = [], []
+    dbatches, dmetas = [], []
     for inst in comps:
         for d in dialects:
             st = structures.get((inst.key, d))
@@ -715,6 +764,37 @@ def comparison_stage(ctx: Ctx, comps, tabs, dialects, structures):
                     ctx.violation(f"comparison {inst.key} cannot be evaluated on {d}", {"case": {"comparison": inst.key, "dialect": d, "case_sql": st["case_sql"]},
                                   "implementation": "engine error on most rows", "specification": "CASE evaluates"}, {"dialect": d, "comparison": inst.name})
                     continue
+            # documented level terms (built from the constructor arguments, not from the implementation) evaluated in Coq on
+            # the rows, against the engine's outcome of the corresponding emitted level
+            exp = [e for e in st.get("expected", []) if e[1] is not None]
+            if len(exp) == len(conds):
+                hdr = [(sd, c) for c in types for sd in (True, False)]
+                hdr_c = coq_list([f"({'true' if sd else 'false'}, {coq_string(c)})" for sd, c in hdr])
+                pick_rows = [i for i, r in enumerate(rows) if i not in skip and all(coqable(v) for p in r.values() for v in p)]
+                special = [i for i in pick_rows if any(v is None for p in rows[i].values() for v in p) or i >= len(rows) - 12]
+                pick_rows = sorted(set(pick_rows[:45] + special[:40]))
+                orcs = {i: coq_list([coq_orow(o) for o in comp_oracle_rows(inst, rows[i], d)], "orow") for i in pick_rows}
+                vals = {i: coq_list([T.coq_val(pyval(float(rows[i][c][0 if sd else 1]) if types[c] == "DOUBLE" and isinstance(rows[i][c][0 if sd else 1], int)
+                                                      else rows[i][c][0 if sd else 1])) for sd, c in hdr], "val") for i in pick_rows}
+                for li, (isnull, term, ev) in enumerate(exp):
+                    if not ev:
+                        ctx.hist("documented_level_not_evaluable_in_coq", f"{d}:{inst.name}")
+                        continue
+                    rws, idx = [], []
+                    for i in pick_rows:
+                        o = tvl(res[i][li])
+                        if o == "error":
+                            continue
+                        if near_boundary_value(inst, rows[i]):
+                            continue
+                        if li > 0 and any(inst.cols[c] in ("arr", "emb") and any(v is None for v in rows[i][c]) for c in inst.cols):
+                            continue        # NULL arrays: engine-specific (DuckDB list_intersect(x, NULL) = []), outside the property
+                        rws.append(f"({vals[i]}, {orcs[i]}, {TVC[o]}%nat)")
+                        idx.append(i)
+                    if rws:
+                        dbatches.append(f"({PROF[d]}%nat, {term}, {hdr_c}, {coq_list(rws)})")
+                        dmetas.append((inst, d, li, term, hdr_c, rws, idx, rows, res, st))
+                        ctx.cov["x_documented_level_rows"] = ctx.cov.get("x_documented_level_rows", 0) + len(rws)
             for i, r in enumerate(rows):
                 if i in skip:
                     ctx.hist("skipped_engine_error_outside_documented_domain", f"{d}:{inst.name}")
@@ -740,3 +820,34 @@ def comparison_stage(ctx: Ctx, comps, tabs, dialects, structures):
                       {"dialect": d, "comparison": inst.name})
     ctx.obligation("X2 comparisons: engine gamma = pick over the engine's own level outcomes", not bad and not errs)
     ctx.cov["x_comparison_rows"] = len(cases)
+    bad3, errs3 = ctx.eval_cases("C16_x3", HEADER, dbatches, "run_batch", shard=20, timeout=900)
+    ctx.obligation("X3 documented levels evaluated in Coq", not errs3, "; ".join(errs3)[:1000])
+    reported = set()
+    if bad3:
+        singles, smeta = [], []
+        for b in bad3[:30]:
+            inst, d, li, term, hdr_c, rws, idx, rows, res, st = dmetas[b]
+            for i, rc in zip(idx, rws):
+                singles.append(f"({PROF[d]}%nat, {term}, {hdr_c}, [{rc}])")
+                smeta.append((inst, d, li, i, rows, res, st, term))
+        bad4, _ = ctx.eval_cases("C16_x3b", HEADER, singles, "run_batch", shard=150, timeout=900)
+        for k in bad4:
+            inst, d, li, i, rows, res, st, term = smeta[k]
+            if (inst.key, d, li) in reported or len([x for x in reported if x[0] == inst.key]) >= 2:
+                continue
+            reported.add((inst.key, d, li))
+            lv = [l for l in st["levels"] if not l["else"]][li]
+            got = tvl(res[i][li])
+            feats = {"dialect": d, "comparison": inst.name, "level_index": li, **inst.meta.get("tags", {})}
+            if li == 0:
+                feats["null_level"] = True
+            ctx.violation(f"{inst.key} on {d}: level {li} ({' '.join(lv['sql'].split())[:70]}) gives {got!r} on a record pair where the documented level "
+                          f"gives the opposite; engine gamma {res[i][-1]}",
+                          {"case": {"comparison": inst.key, "dialect": d, "row": rows[i], "level_index": li, "level_sql": lv["sql"], "documented_level": term,
+                                    "case_sql": st["case_sql"]},
+                           "implementation": {"level_outcome": got, "gamma": res[i][-1]},
+                           "specification": "sem of the documented level term (Coq) differs; e.g. an invalid value must fall in the null level (gamma -1) "
+                                            "when invalid_*_as_null is set"}, feats)
+        if not bad4:
+            ctx.violation("X3 batch failed but no single row reproduces", {"broken": "C16_x3 batch"}, found_input=False)
+    ctx.obligation("X3 comparisons: every emitted level agrees with the documented level on every row", not bad3 and not errs3)
